@@ -20,6 +20,7 @@ mod c08;
 mod c07;
 mod c16;
 mod c14;
+mod c20;
 
 use common::Tier;
 
@@ -50,6 +51,7 @@ fn main() {
         "C07" => c07::run(tier),
         "C16" => c16::run(tier),
         "C14" => c14::run(tier),
+        "C20" => c20::run(tier),
         "parse" => {
             use std::convert::TryFrom;
             let t = &args[2];
